@@ -214,6 +214,14 @@ def run_program(ops, seed, tmp, form="explicit", shared_cb=None):
             outs.append(params_flat(state))
         elif k == "long_chains":
             outs.append([state.sample(op["k"], num_samples=3).clone(), state.sample(op["k"], num_samples=3).clone()])
+            # the same seeded long-chain call twice on this one object (same arguments, parameters untouched): a function of the seed alone
+            res_ = []
+            for _ in range(2):
+                seed_lib(seed + 23, form)
+                res_.append([state.sample(op["k"], num_samples=3).clone(), make_obs("SigmaZ").statistics(state, num_samples=6, num_chains=3, burn_in=op["k"], steps=1)])
+            require(deep_equal(res_[0], res_[1]), "not-reproducible:long-chains-same-arguments",
+                    f"sample({op['k']}, num_samples=3) / statistics(burn_in={op['k']}) called twice on one object with the same seed and arguments gave different results")
+            outs.append(res_[0])
         elif k == "make_unitaries":
             # building a dictionary of unitaries (operators given as nested lists / arrays / tensors) is a pure function of its arguments: what
             # is sampled afterwards must not depend on it having happened
